@@ -28,6 +28,29 @@ INITIAL_MISS = {'C01-1': 'provider function _increment_parent_descriptor_version
                 'C17-3': 'reported as undecided (exit 2): next(iter(...)) was not modelled and the enabled codings were an abstract set without a list view',
                 'C17-4': 'the bounded client check injected the configuration into a stand-in object and so bypassed SoapClient.__init__',
                 'C20-4': 'no history queried the languages, added texts and queried again',
+                'C04-5': 'the parent-version contract existed under C02 only; C04 did not re-check that the report copy is taken after the increment',
+                'C04-6': 'the periodic send loop was not under contract (bounded harness only counts reports)',
+                'C05-6': 'AllowedValuesType.is_empty was not under contract and no bounded instance had exactly one allowed value',
+                'C07-5': 'copy-on-write (mk_copy deep) was proved under C03 only; the snapshot argument of C07 did not re-check it',
+                'C07-6': 'the transaction manager contract (C02) identified locks by the NAME of the with-target, so a local variable called mdib_lock holding nullcontext() passed; locks are now identified by attribute path',
+                'C08-5': 'SoapClientPool was not under contract',
+                'C08-6': 'the constructor that builds the action filter list was not under contract (only matches())',
+                'C09-5': 'enqueue_operation was only a callee summary (may raise queue.Full), its body was not under contract',
+                'C13-5': 'no obligation bounded the wait of the request thread for the operation worker',
+                'C15-5': 'which parameter set a send function schedules with was not checked (only the schedule for a given set)',
+                'C17-6': 'the proofs spoke about server.supported_encodings but not about who keeps that list current (copy at construction time)',
+                'C19-6': 'mk_ssl_contexts_from_folder (the convenience wrapper) was not under contract',
+                'C01-7': 'the context-descriptor branch of _update_corresponding_state was not under contract and no history updated a context descriptor that owns a disassociated state',
+                'C06-7': 'the observers in consumermdibxtra.py that feed reports into the MDIB were not under contract',
+                'C07-7': 'nothing stated that serialising a state must not look at its (in place updated) descriptor',
+                'C09-7': 'the serial-order enumeration had at most one foreign report part between own report and response',
+                'C11-7': 'contracts covered MultiKeyLookup; nothing stated that the table subclasses in mdibbase.py only delegate (a new override escaped), and no history re-added a stored object',
+                'C12-7': 'the default-flow scan looked at the value-producing methods only, not at __set__',
+                'C13-7': 'raw requests went to a dummy component; no request with a percent-encoded path reached the real middleware',
+                'C15-7': '_send_msg was a callee summary of the send loop, its body was not under contract',
+                'C17-7': 'the asynchronous client was not exercised; only SoapClient._send_soap_request was',
+                'C19-7': 'the send contracts checked the connection (netloc) but not that only the path component is posted',
+                'C20-7': 'the localization handlers (pass-through to the storage) were not under contract',
                 'C09-3': 'reported as undecided (exit 2): obligations were attached to the notification calls, so an iteration that never reaches the Fail report produced no obligation'}
 for d in sorted(x for x in os.listdir(ROOT) if not x.startswith("_")):
     p = os.path.join(ROOT, d)
